@@ -1,97 +1,766 @@
 //! C16 stream `s`: real derived (`#[derive(FromTLV, ToTLV)]`) wire structures round-tripped.
 //!
-//! A value is a list of slots in field order: `-` (Option::None), `n` (Nullable null), a decimal
-//! number, `T` / `F`. `enc <slots>` builds the Rust value and runs the derived `to_tlv` with an
-//! anonymous tag; `dec <hex>` runs the derived `from_tlv` and prints the slots back.
+//! A value is written as text: `-` (Option::None), `n` (Nullable null), a decimal number, `T` / `F`,
+//! `x<hex>` (octet / UTF-8 string), `{ slot … }` (structure, slots in field order), `[ value … ]`
+//! (array). `enc <value>` builds the Rust value and runs the derived `to_tlv` with an anonymous tag
+//! (for the structures that only derive `FromTLV` — the Sigma messages — the bytes are produced by a
+//! schema-directed writer over the real `TLVWrite`, i.e. the layout the peer sends); `dec <hex>`
+//! runs the derived `from_tlv` and prints the value back.
 use crate::proto::{hex, unhex};
 use crate::rng::Rng;
 
-use rs_matter::acl::Target;
+use core::num::NonZeroU8;
+
+use rs_matter::acl::{AclEntry, AuthMode, Target};
+use rs_matter::dm::clusters::acl::AccessControlAuxiliaryTypeEnum;
+use rs_matter::dm::Privilege;
 use rs_matter::error::Error;
-use rs_matter::im::{AttrPath, ClusterPath, CmdPath, DataVersionFilter, EventFilter, EventPath, TimedReq};
-use rs_matter::tlv::{FromTLV, Nullable, TLVElement, TLVTag, ToTLV};
+use rs_matter::im::{
+    AttrData, AttrPath, AttrResp, AttrStatus, ClusterPath, CmdData, CmdPath, CmdResp, CmdStatus, DataVersionFilter, EventFilter, EventPath,
+    IMStatusCode, Status, StatusResp, TimedReq,
+};
+use rs_matter::sc::VerifSessionParams as Sp;
+use rs_matter::tlv::{FromTLV, Nullable, TLVElement, TLVTag, TLVWrite, ToTLV};
 use rs_matter::utils::storage::WriteBuf;
 
-#[derive(Clone, Copy, PartialEq)]
-pub enum Ty {
-    U8,
-    U16,
-    U32,
-    U64,
-    Bool,
+// ---------------------------------------------------------------------------------- values
+
+#[derive(Clone, Debug, PartialEq)]
+pub enum V {
+    Absent,
+    Null,
+    Num(u64),
+    Bool(bool),
+    Bytes(Vec<u8>),
+    Obj(Vec<V>),
+    Arr(Vec<V>),
+    /// a raw `TLVElement` field: the bytes of the element under the anonymous tag
+    Raw(Vec<u8>),
+    /// the empty `TLVElement` (field not present)
+    Empty,
+    /// variant `i` of an enum with payload
+    Variant(usize, Box<V>),
 }
 
-/// (type, optional, nullable) per slot, in field order — used by the generator only
-pub fn schema(name: &str) -> &'static [(Ty, bool, bool)] {
-    use Ty::*;
-    match name {
-        "AttrPath" => &[(Bool, true, false), (U64, true, false), (U16, true, false), (U32, true, false), (U32, true, false), (U16, true, true)],
-        "CmdPath" => &[(U16, true, false), (U32, true, false), (U32, true, false)],
-        "EventPath" => &[(U64, true, false), (U16, true, false), (U32, true, false), (U32, true, false), (Bool, true, false)],
-        "ClusterPath" => &[(U64, true, false), (U16, false, false), (U32, false, false)],
-        "EventFilter" => &[(U64, true, false), (U64, true, false)],
-        "TimedReq" => &[(U16, false, false), (U8, true, false)],
-        "Target" => &[(U32, true, false), (U16, true, false), (U32, true, false)],
-        "DataVersionFilter" => &[(U64, true, false), (U16, false, false), (U32, false, false), (U32, false, false)],
-        _ => &[],
+fn parse_one(toks: &[&str], pos: &mut usize) -> Result<V, String> {
+    let t = *toks.get(*pos).ok_or("BADSLOT")?;
+    *pos += 1;
+    Ok(match t {
+        "-" => V::Absent,
+        "n" => V::Null,
+        "T" => V::Bool(true),
+        "F" => V::Bool(false),
+        "_" => V::Empty,
+        "(" => {
+            let i = toks.get(*pos).ok_or("BADSLOT")?.parse::<usize>().map_err(|_| "BADSLOT".to_string())?;
+            *pos += 1;
+            let v = parse_one(toks, pos)?;
+            if toks.get(*pos) != Some(&")") {
+                return Err("BADSLOT".into());
+            }
+            *pos += 1;
+            V::Variant(i, Box::new(v))
+        }
+        x if x.starts_with("r:") => {
+            let h = &x[2..];
+            if h.is_empty() || h.len() % 2 != 0 || !h.bytes().all(|c| c.is_ascii_hexdigit()) {
+                return Err("BADSLOT".into());
+            }
+            V::Raw(unhex(h))
+        }
+        "{" | "[" => {
+            let close = if t == "{" { "}" } else { "]" };
+            let mut items = Vec::new();
+            loop {
+                let n = *toks.get(*pos).ok_or("BADSLOT")?;
+                if n == close {
+                    *pos += 1;
+                    break;
+                }
+                items.push(parse_one(toks, pos)?);
+            }
+            if t == "{" {
+                V::Obj(items)
+            } else {
+                V::Arr(items)
+            }
+        }
+        x if x.starts_with('x') => {
+            let h = &x[1..];
+            if h.len() % 2 != 0 || !h.bytes().all(|c| c.is_ascii_hexdigit()) {
+                return Err("BADSLOT".into());
+            }
+            V::Bytes(if h.is_empty() { Vec::new() } else { unhex(h) })
+        }
+        x => V::Num(x.parse::<u64>().map_err(|_| "BADSLOT".to_string())?),
+    })
+}
+
+pub fn parse(toks: &[&str]) -> Result<V, String> {
+    let mut pos = 0;
+    let v = parse_one(toks, &mut pos)?;
+    if pos != toks.len() {
+        return Err("BADSLOT".into());
+    }
+    Ok(v)
+}
+
+pub fn show(v: &V) -> String {
+    match v {
+        V::Absent => "-".into(),
+        V::Null => "n".into(),
+        V::Num(n) => n.to_string(),
+        V::Bool(true) => "T".into(),
+        V::Bool(false) => "F".into(),
+        V::Bytes(b) => format!("x{}", if b.is_empty() { String::new() } else { hex(b) }),
+        V::Obj(xs) => format!("{{{} }}", xs.iter().map(|x| format!(" {}", show(x))).collect::<String>()),
+        V::Arr(xs) => format!("[{} ]", xs.iter().map(|x| format!(" {}", show(x))).collect::<String>()),
+        V::Raw(b) => format!("r:{}", hex(b)),
+        V::Empty => "_".into(),
+        V::Variant(i, v) => format!("( {} {} )", i, show(v)),
     }
 }
 
-pub const NAMES: &[&str] = &["AttrPath", "CmdPath", "EventPath", "ClusterPath", "EventFilter", "TimedReq", "Target", "DataVersionFilter"];
+type R<T> = Result<T, String>;
+fn bad<T>() -> R<T> {
+    Err("BADSLOT".into())
+}
+fn obj(v: &V, n: usize) -> R<&[V]> {
+    match v {
+        V::Obj(xs) if xs.len() == n => Ok(xs),
+        _ => bad(),
+    }
+}
+fn num(v: &V) -> R<u64> {
+    match v {
+        V::Num(n) => Ok(*n),
+        _ => bad(),
+    }
+}
+fn n8(v: &V) -> R<u8> {
+    u8::try_from(num(v)?).or(bad())
+}
+fn n16(v: &V) -> R<u16> {
+    u16::try_from(num(v)?).or(bad())
+}
+fn n32(v: &V) -> R<u32> {
+    u32::try_from(num(v)?).or(bad())
+}
+fn boolean(v: &V) -> R<bool> {
+    match v {
+        V::Bool(b) => Ok(*b),
+        _ => bad(),
+    }
+}
+fn bytes(v: &V) -> R<&[u8]> {
+    match v {
+        V::Bytes(b) => Ok(b),
+        _ => bad(),
+    }
+}
+fn opt<'a, T>(v: &'a V, f: impl Fn(&'a V) -> R<T>) -> R<Option<T>> {
+    match v {
+        V::Absent => Ok(None),
+        x => f(x).map(Some),
+    }
+}
+fn vo<T>(o: Option<T>, f: impl Fn(T) -> V) -> V {
+    o.map(f).unwrap_or(V::Absent)
+}
+fn vn<T: Into<u64>>(x: T) -> V {
+    V::Num(x.into())
+}
+fn vb(b: &[u8]) -> V {
+    V::Bytes(b.to_vec())
+}
 
-fn num(s: &str) -> Option<u64> {
-    s.parse().ok()
+fn sp_of(v: &V) -> R<Sp> {
+    let s = obj(v, 7)?;
+    Ok((opt(&s[0], n32)?, opt(&s[1], n32)?, opt(&s[2], n16)?, opt(&s[3], n16)?, opt(&s[4], n16)?, opt(&s[5], n32)?, opt(&s[6], n16)?))
 }
-fn o64(s: &str) -> Result<Option<u64>, String> {
-    if s == "-" {
-        Ok(None)
-    } else {
-        num(s).map(Some).ok_or_else(|| "BADSLOT".to_string())
-    }
-}
-fn o32(s: &str) -> Result<Option<u32>, String> {
-    Ok(o64(s)?.map(|x| x as u32))
-}
-fn o16(s: &str) -> Result<Option<u16>, String> {
-    Ok(o64(s)?.map(|x| x as u16))
-}
-fn o8(s: &str) -> Result<Option<u8>, String> {
-    Ok(o64(s)?.map(|x| x as u8))
-}
-fn ob(s: &str) -> Result<Option<bool>, String> {
-    match s {
-        "-" => Ok(None),
-        "T" => Ok(Some(true)),
-        "F" => Ok(Some(false)),
-        _ => Err("BADSLOT".into()),
-    }
-}
-fn r64(s: &str) -> Result<u64, String> {
-    num(s).ok_or_else(|| "BADSLOT".to_string())
+fn sp_v(s: Sp) -> V {
+    V::Obj(vec![vo(s.0, vn), vo(s.1, vn), vo(s.2, vn), vo(s.3, vn), vo(s.4, vn), vo(s.5, vn), vo(s.6, vn)])
 }
 
-fn p<T: ToString>(o: &Option<T>) -> String {
-    o.as_ref().map(|x| x.to_string()).unwrap_or("-".into())
+fn cluster_path_of(v: &V) -> R<ClusterPath> {
+    let s = obj(v, 3)?;
+    Ok(ClusterPath { node: opt(&s[0], num)?, endpoint: n16(&s[1])?, cluster: n32(&s[2])? })
 }
-fn pb(o: &Option<bool>) -> String {
-    match o {
-        None => "-".into(),
-        Some(true) => "T".into(),
-        Some(false) => "F".into(),
+fn cluster_path_v(p: &ClusterPath) -> V {
+    V::Obj(vec![vo(p.node, vn), vn(p.endpoint), vn(p.cluster)])
+}
+fn target_of(v: &V) -> R<Target> {
+    let s = obj(v, 3)?;
+    Ok(Target { cluster: opt(&s[0], n32)?, endpoint: opt(&s[1], n16)?, device_type: opt(&s[2], n32)? })
+}
+fn target_v(t: &Target) -> V {
+    V::Obj(vec![vo(t.cluster, vn), vo(t.endpoint, vn), vo(t.device_type, vn)])
+}
+fn status_code_of(v: &V) -> R<IMStatusCode> {
+    // `FromPrimitive` is not re-exported: build the code from an anonymous 16-bit TLV integer
+    let n = n16(v)?;
+    IMStatusCode::from_tlv(&TLVElement::new(&[0x05, n as u8, (n >> 8) as u8])).or(bad())
+}
+fn privilege_of(n: u64) -> R<Privilege> {
+    Ok(match n {
+        1 => Privilege::VIEW,
+        2 => Privilege::PROXYVIEW,
+        3 => Privilege::OPERATE,
+        4 => Privilege::MANAGE,
+        5 => Privilege::ADMIN,
+        _ => return bad(),
+    })
+}
+fn privilege_n(p: Privilege) -> u64 {
+    [Privilege::VIEW, Privilege::PROXYVIEW, Privilege::OPERATE, Privilege::MANAGE, Privilege::ADMIN]
+        .iter()
+        .position(|x| *x == p)
+        .map(|i| i as u64 + 1)
+        .unwrap_or(0x1000 + p.bits() as u64)
+}
+
+fn raw(v: &V) -> R<&[u8]> {
+    match v {
+        V::Raw(b) => Ok(b),
+        _ => bad(),
     }
+}
+/// a raw element field observed as a consumer does: decoded to a tree with the public accessors
+/// (`tag()`, `value()`, `container()?.iter()`, as stream w) and written again under the anonymous tag
+fn raw_v(e: &TLVElement) -> R<V> {
+    if e.is_empty() {
+        return Ok(V::Empty);
+    }
+    let mut toks = Vec::new();
+    super::decode_tree(e, super::DEPTH_CAP, &mut toks).map_err(|_| "e:RawElement".to_string())?;
+    let mut node = super::parse_tree(&toks.join(" ")).ok_or("e:RawElement".to_string())?;
+    match &mut node {
+        super::Node::Leaf(t, _) | super::Node::Cont(t, _, _) => *t = TLVTag::Anonymous,
+    }
+    super::write_tree(&node, &mut Vec::new()).map(V::Raw).map_err(|_| "e:RawElement".to_string())
+}
+fn attr_path_of(v: &V) -> R<AttrPath> {
+    let s = obj(v, 6)?;
+    Ok(AttrPath {
+        tag_compression: opt(&s[0], boolean)?,
+        node: opt(&s[1], num)?,
+        endpoint: opt(&s[2], n16)?,
+        cluster: opt(&s[3], n32)?,
+        attr: opt(&s[4], n32)?,
+        list_index: match &s[5] {
+            V::Absent => None,
+            V::Null => Some(Nullable::none()),
+            x => Some(Nullable::some(n16(x)?)),
+        },
+    })
+}
+fn attr_path_v(v: &AttrPath) -> V {
+    let li = match &v.list_index {
+        None => V::Absent,
+        Some(n) => n.as_opt_ref().map(|x| vn(*x)).unwrap_or(V::Null),
+    };
+    V::Obj(vec![vo(v.tag_compression, V::Bool), vo(v.node, vn), vo(v.endpoint, vn), vo(v.cluster, vn), vo(v.attr, vn), li])
+}
+fn cmd_path_of(v: &V) -> R<CmdPath> {
+    let s = obj(v, 3)?;
+    Ok(CmdPath { endpoint: opt(&s[0], n16)?, cluster: opt(&s[1], n32)?, cmd: opt(&s[2], n32)? })
+}
+fn cmd_path_v(v: &CmdPath) -> V {
+    V::Obj(vec![vo(v.endpoint, vn), vo(v.cluster, vn), vo(v.cmd, vn)])
+}
+fn status_of(v: &V) -> R<Status> {
+    let s = obj(v, 2)?;
+    Ok(Status { status: status_code_of(&s[0])?, cluster_status: opt(&s[1], n16)? })
+}
+fn status_v(v: &Status) -> V {
+    V::Obj(vec![vn(v.status as u16), vo(v.cluster_status, vn)])
+}
+fn attr_status_of(v: &V) -> R<AttrStatus> {
+    let s = obj(v, 2)?;
+    Ok(AttrStatus { path: attr_path_of(&s[0])?, status: status_of(&s[1])? })
+}
+fn attr_status_v(v: &AttrStatus) -> V {
+    V::Obj(vec![attr_path_v(&v.path), status_v(&v.status)])
+}
+fn attr_data_of(v: &V) -> R<AttrData<'_>> {
+    let s = obj(v, 3)?;
+    Ok(AttrData { data_ver: opt(&s[0], n32)?, path: attr_path_of(&s[1])?, data: TLVElement::new(raw(&s[2])?) })
+}
+fn attr_data_v(v: &AttrData) -> R<V> {
+    Ok(V::Obj(vec![vo(v.data_ver, vn), attr_path_v(&v.path), raw_v(&v.data)?]))
+}
+fn cmd_status_of(v: &V) -> R<CmdStatus> {
+    let s = obj(v, 3)?;
+    Ok(CmdStatus { path: cmd_path_of(&s[0])?, status: status_of(&s[1])?, command_ref: opt(&s[2], n16)? })
+}
+fn cmd_status_v(v: &CmdStatus) -> V {
+    V::Obj(vec![cmd_path_v(&v.path), status_v(&v.status), vo(v.command_ref, vn)])
+}
+fn cmd_data_of(v: &V) -> R<CmdData<'_>> {
+    let s = obj(v, 3)?;
+    Ok(CmdData { path: cmd_path_of(&s[0])?, data: TLVElement::new(raw(&s[1])?), command_ref: opt(&s[2], n16)? })
+}
+fn cmd_data_v(v: &CmdData) -> R<V> {
+    Ok(V::Obj(vec![cmd_path_v(&v.path), raw_v(&v.data)?, vo(v.command_ref, vn)]))
+}
+fn okr(v: R<V>) -> String {
+    v.map(okv).unwrap_or_else(|e| e)
 }
 
 fn enc_any<T: ToTLV>(v: &T) -> String {
-    let mut buf = [0u8; 256];
+    let mut buf = vec![0u8; 16384];
     let mut wb = WriteBuf::new(&mut buf);
     match v.to_tlv(&TLVTag::Anonymous, &mut wb) {
         Ok(()) => format!("ok:{}", hex(wb.as_slice())),
         Err(e) => format!("e:{:?}", e.code()),
     }
 }
-
+fn enc_hook(f: impl FnOnce(&mut [u8]) -> Result<usize, Error>) -> String {
+    let mut buf = vec![0u8; 16384];
+    match f(&mut buf) {
+        Ok(n) => format!("ok:{}", hex(&buf[..n])),
+        Err(e) => format!("e:{:?}", e.code()),
+    }
+}
 fn err(e: Error) -> String {
     format!("e:{:?}", e.code())
+}
+fn okv(v: V) -> String {
+    format!("ok:{}", show(&v))
+}
+
+// ---------------------------------------------------------------------------------- schemas (generator + layout writer)
+
+#[derive(Clone)]
+pub enum Dom {
+    Any,
+    NonZero,
+    OneOf(Vec<u64>),
+}
+#[derive(Clone)]
+pub enum T {
+    U(usize, Dom),
+    Bool,
+    /// octet string: minimum length, capacity
+    Oct(usize, Option<usize>),
+    /// UTF-8 string with a capacity in bytes
+    Utf8(usize),
+    St(Vec<F>),
+    Ls(Vec<F>),
+    Arr(Option<usize>, Box<T>),
+    /// raw `TLVElement`
+    Any,
+    /// enum with payload: (context tag, payload type) per variant
+    Choice(Vec<(u8, T)>),
+}
+#[derive(Clone)]
+pub struct F {
+    tag: u8,
+    opt: bool,
+    nullable: bool,
+    ty: T,
+}
+#[allow(non_upper_case_globals)]
+const Oct: T = T::Oct(0, None);
+fn key(n: usize) -> T {
+    T::Oct(n, Some(n))
+}
+fn o(tag: u8, ty: T) -> F {
+    F { tag, opt: true, nullable: false, ty }
+}
+fn r(tag: u8, ty: T) -> F {
+    F { tag, opt: false, nullable: false, ty }
+}
+fn nl(tag: u8, ty: T) -> F {
+    F { tag, opt: false, nullable: true, ty }
+}
+fn arr(cap: usize, ty: T) -> T {
+    T::Arr(Some(cap), Box::new(ty))
+}
+fn attr_path() -> T {
+    T::Ls(vec![o(0, T::Bool), o(1, u(8)), o(2, u(2)), o(3, u(4)), o(4, u(4)), F { tag: 5, opt: true, nullable: true, ty: u(2) }])
+}
+fn cmd_path() -> T {
+    T::Ls(vec![o(0, u(2)), o(1, u(4)), o(2, u(4))])
+}
+fn status() -> T {
+    T::St(vec![r(0, im_status()), o(1, u(2))])
+}
+fn attr_status() -> T {
+    T::St(vec![r(0, attr_path()), r(1, status())])
+}
+fn attr_data() -> T {
+    T::St(vec![o(0, u(4)), r(1, attr_path()), r(2, T::Any)])
+}
+fn cmd_status() -> T {
+    T::St(vec![r(0, cmd_path()), r(1, status()), o(2, u(2))])
+}
+fn cmd_data() -> T {
+    T::St(vec![r(0, cmd_path()), r(1, T::Any), o(2, u(2))])
+}
+fn acl_entry() -> T {
+    T::St(vec![
+        r(1, T::U(1, Dom::OneOf(vec![1, 2, 3, 4, 5]))),
+        r(2, T::U(1, Dom::OneOf(vec![1, 2, 3]))),
+        nl(3, arr(rs_matter::acl::MAX_SUBJECTS_PER_ACL_ENTRY, u(8))),
+        nl(4, arr(rs_matter::acl::MAX_TARGETS_PER_ACL_ENTRY, target())),
+        o(5, T::U(1, Dom::OneOf(vec![0, 1]))),
+        o(0xfe, T::U(1, Dom::NonZero)),
+    ])
+}
+fn groups() -> T {
+    use rs_matter::fabric::{GROUP_ENDPOINTS_PER_FABRIC, MAX_GROUPS_PER_FABRIC, MAX_GROUP_KEYS_PER_FABRIC, MAX_GROUP_NAME_LEN};
+    T::St(vec![
+        r(0, arr(MAX_GROUP_KEYS_PER_FABRIC, T::St(vec![r(0, u(2)), r(1, u(1)), r(2, arr(rs_matter::group_keys::GROUP_MAX_EPOCH_KEYS, T::St(vec![r(0, key(16)), r(1, u(8))])))]))),
+        r(1, arr(MAX_GROUPS_PER_FABRIC, T::St(vec![r(0, u(2)), r(1, u(2))]))),
+        r(2, arr(MAX_GROUPS_PER_FABRIC, T::St(vec![r(0, u(2)), r(1, arr(GROUP_ENDPOINTS_PER_FABRIC, u(2))), r(2, T::Utf8(MAX_GROUP_NAME_LEN)), o(3, T::Bool), o(4, T::U(1, Dom::OneOf(vec![0, 1])))]))),
+    ])
+}
+/// the persisted fabric blob (`Skippable<Groups>` at tag 13 is always written)
+fn fabric() -> T {
+    use rs_matter::cert::MAX_CERT_TLV_LEN;
+    T::St(vec![
+        r(0, T::U(1, Dom::NonZero)),
+        r(1, u(8)),
+        r(2, u(8)),
+        r(3, u(2)),
+        r(4, u(8)),
+        r(5, key(32)),
+        r(6, arr(MAX_CERT_TLV_LEN, u(1))),
+        r(7, arr(MAX_CERT_TLV_LEN, u(1))),
+        r(8, T::Bool),
+        r(9, arr(MAX_CERT_TLV_LEN, u(1))),
+        r(10, T::St(vec![r(0, key(16)), r(1, key(16))])),
+        r(11, T::Utf8(32)),
+        r(12, arr(rs_matter::acl::MAX_ACL_ENTRIES_PER_FABRIC, acl_entry())),
+        r(13, groups()),
+        r(14, arr(85, u(1))),
+    ])
+}
+fn u(n: usize) -> T {
+    T::U(n, Dom::Any)
+}
+fn sess_params() -> T {
+    T::St(vec![o(1, u(4)), o(2, u(4)), o(3, u(2)), o(4, u(2)), o(5, u(2)), o(6, u(4)), o(7, u(2))])
+}
+fn cluster_path() -> T {
+    T::Ls(vec![o(0, u(8)), r(1, u(2)), r(2, u(4))])
+}
+fn target() -> T {
+    T::St(vec![o(0, u(4)), o(1, u(2)), o(2, u(4))])
+}
+fn im_status() -> T {
+    T::U(
+        2,
+        Dom::OneOf(vec![
+            0, 1, 0x7d, 0x7e, 0x7f, 0x80, 0x81, 0x85, 0x86, 0x87, 0x88, 0x89, 0x8b, 0x8c, 0x8d, 0x8f, 0x92, 0x94, 0x9b, 0x9c, 0x9d, 0xc3,
+            0xc5, 0xc6, 0xc7, 0xc8, 0xc9, 0xca, 0xcb, 0xcc, 0xcd, 0xce, 0xcf, 0xd0, 0xd1,
+        ]),
+    )
+}
+
+pub fn schema(name: &str) -> Option<T> {
+    Some(match name {
+        "AttrPath" => attr_path(),
+        "CmdPath" => cmd_path(),
+        "AttrStatus" => attr_status(),
+        "AttrData" => attr_data(),
+        "AttrResp" => T::Choice(vec![(0, attr_status()), (1, attr_data())]),
+        "CmdStatus" => cmd_status(),
+        "CmdData" => cmd_data(),
+        "CmdResp" => T::Choice(vec![(0, cmd_data()), (1, cmd_status())]),
+        "EventPath" => T::Ls(vec![o(0, u(8)), o(1, u(2)), o(2, u(4)), o(3, u(4)), o(4, T::Bool)]),
+        "ClusterPath" => cluster_path(),
+        "EventFilter" => T::St(vec![o(0, u(8)), o(1, u(8))]),
+        "TimedReq" => T::St(vec![r(0, u(2)), o(0xff, u(1))]),
+        "Target" => target(),
+        "DataVersionFilter" => T::St(vec![r(0, cluster_path()), r(1, u(4))]),
+        "Status" => status(),
+        "StatusResp" => T::St(vec![r(0, im_status()), o(0xff, u(1))]),
+        "SessionParameters" => sess_params(),
+        "PBKDFParamReq" => T::St(vec![r(1, Oct), r(2, u(2)), r(3, u(2)), r(4, T::Bool), o(5, sess_params())]),
+        "PBKDFParamResp" => T::St(vec![r(1, Oct), r(2, Oct), r(3, u(2)), o(4, T::St(vec![r(1, u(4)), r(2, Oct)])), o(5, sess_params())]),
+        "Pake1" | "Pake3" => T::St(vec![r(1, Oct)]),
+        "Pake2" => T::St(vec![r(1, Oct), r(2, Oct)]),
+        "Sigma1Req" => T::St(vec![r(1, Oct), r(2, u(2)), r(3, Oct), r(4, Oct), o(5, sess_params()), o(6, Oct), o(7, Oct)]),
+        "Sigma2Resp" => T::St(vec![r(1, Oct), r(2, u(2)), r(3, Oct), r(4, Oct)]),
+        "TBEData2Decrypt" => T::St(vec![r(1, Oct), o(2, Oct), r(3, Oct), r(4, Oct)]),
+        "Sigma3Decrypt" => T::St(vec![r(1, Oct), o(2, Oct), r(3, Oct)]),
+        "Sigma2ResumeMsg" => T::St(vec![r(1, Oct), r(2, Oct), r(3, u(2)), o(4, sess_params())]),
+        "AclEntry" => acl_entry(),
+        "Fabric" => fabric(),
+        _ => return None,
+    })
+}
+
+pub const NAMES: &[&str] = &[
+    "AttrPath", "CmdPath", "EventPath", "ClusterPath", "EventFilter", "TimedReq", "Target", "DataVersionFilter", "Status", "StatusResp",
+    "SessionParameters", "PBKDFParamReq", "PBKDFParamResp", "Pake1", "Pake2", "Pake3", "Sigma1Req", "Sigma2Resp", "TBEData2Decrypt",
+    "Sigma3Decrypt", "Sigma2ResumeMsg", "AclEntry", "Fabric", "AttrStatus", "AttrData", "AttrResp", "CmdStatus", "CmdData", "CmdResp",
+];
+
+/// structures that only derive `FromTLV`: `enc` is the layout writer below
+const DEC_ONLY: &[&str] = &["Sigma1Req", "Sigma2Resp", "TBEData2Decrypt", "Sigma3Decrypt", "Sigma2ResumeMsg"];
+
+/// `Fabric` has private fields and key-material types: its value is built by decoding the layout
+/// writer's bytes, and observed by `reenc` = real `from_tlv` followed by real `to_tlv`
+const REENC_ONLY: &[&str] = &["Fabric"];
+
+/// the wire layout of a schema written with the real `TLVWrite`; `order` permutes the fields of the
+/// outermost structure (the derived decoders tolerate any order)
+fn layout_write(tw: &mut WriteBuf, tag: &TLVTag, ty: &T, v: &V, order: Option<&[usize]>) -> R<()> {
+    let e = |e: Error| format!("e:{:?}", e.code());
+    match (ty, v) {
+        (T::U(1, _), V::Num(n)) => tw.u8(tag, u8::try_from(*n).or(bad())?).map_err(e),
+        (T::U(2, _), V::Num(n)) => tw.u16(tag, u16::try_from(*n).or(bad())?).map_err(e),
+        (T::U(4, _), V::Num(n)) => tw.u32(tag, u32::try_from(*n).or(bad())?).map_err(e),
+        (T::U(_, _), V::Num(n)) => tw.u64(tag, *n).map_err(e),
+        (T::Bool, V::Bool(b)) => tw.bool(tag, *b).map_err(e),
+        (T::Oct(_, _), V::Bytes(b)) => tw.str(tag, b).map_err(e),
+        (T::Utf8(_), V::Bytes(b)) => tw.utf8(tag, core::str::from_utf8(b).or(bad())?).map_err(e),
+        (T::St(fs), V::Obj(xs)) | (T::Ls(fs), V::Obj(xs)) if fs.len() == xs.len() => {
+            if matches!(ty, T::St(_)) {
+                tw.start_struct(tag).map_err(e)?;
+            } else {
+                tw.start_list(tag).map_err(e)?;
+            }
+            let idx: Vec<usize> = match order {
+                Some(p) if p.len() == fs.len() => p.to_vec(),
+                _ => (0..fs.len()).collect(),
+            };
+            for i in idx {
+                let (f, x) = (&fs[i], &xs[i]);
+                let t = TLVTag::Context(f.tag);
+                match x {
+                    V::Absent if f.opt => {}
+                    V::Null if f.nullable => tw.null(&t).map_err(e)?,
+                    V::Absent | V::Null => return bad(),
+                    x => layout_write(tw, &t, &f.ty, x, None)?,
+                }
+            }
+            tw.end_container().map_err(e)
+        }
+        (T::Any, V::Raw(b)) => TLVElement::new(b).to_tlv(tag, &mut *tw).map_err(e),
+        (T::Choice(alts), V::Variant(i, x)) => {
+            let (t, ty) = alts.get(*i).ok_or("BADSLOT".to_string())?;
+            tw.start_struct(tag).map_err(e)?;
+            layout_write(tw, &TLVTag::Context(*t), ty, x, None)?;
+            tw.end_container().map_err(e)
+        }
+        (T::Arr(_, el), V::Arr(xs)) => {
+            tw.start_array(tag).map_err(e)?;
+            for x in xs {
+                layout_write(tw, &TLVTag::Anonymous, el, x, None)?;
+            }
+            tw.end_container().map_err(e)
+        }
+        _ => bad(),
+    }
+}
+
+fn layout_enc(name: &str, v: &V, order: Option<&[usize]>) -> String {
+    let Some(ty) = schema(name) else { return "BADNAME".into() };
+    let mut buf = vec![0u8; 16384];
+    let mut wb = WriteBuf::new(&mut buf);
+    match layout_write(&mut wb, &TLVTag::Anonymous, &ty, v, order) {
+        Ok(()) => format!("ok:{}", hex(wb.as_slice())),
+        Err(e) => e,
+    }
+}
+
+// ---------------------------------------------------------------------------------- the real derived codecs
+
+fn enc_real(name: &str, v: &V) -> R<String> {
+    use rs_matter::sc::pase::verif_tlv as pase;
+    Ok(match name {
+        "AttrPath" => enc_any(&attr_path_of(v)?),
+        "CmdPath" => enc_any(&cmd_path_of(v)?),
+        "AttrStatus" => enc_any(&attr_status_of(v)?),
+        "AttrData" => enc_any(&attr_data_of(v)?),
+        "AttrResp" => match v {
+            V::Variant(0, x) => enc_any(&AttrResp::Status(attr_status_of(x)?)),
+            V::Variant(1, x) => enc_any(&AttrResp::Data(attr_data_of(x)?)),
+            _ => return bad(),
+        },
+        "CmdStatus" => enc_any(&cmd_status_of(v)?),
+        "CmdData" => enc_any(&cmd_data_of(v)?),
+        "CmdResp" => match v {
+            V::Variant(0, x) => enc_any(&CmdResp::Cmd(cmd_data_of(x)?)),
+            V::Variant(1, x) => enc_any(&CmdResp::Status(cmd_status_of(x)?)),
+            _ => return bad(),
+        },
+        "EventPath" => {
+            let s = obj(v, 5)?;
+            enc_any(&EventPath {
+                node: opt(&s[0], num)?,
+                endpoint: opt(&s[1], n16)?,
+                cluster: opt(&s[2], n32)?,
+                event: opt(&s[3], n32)?,
+                is_urgent: opt(&s[4], boolean)?,
+            })
+        }
+        "ClusterPath" => enc_any(&cluster_path_of(v)?),
+        "EventFilter" => {
+            let s = obj(v, 2)?;
+            enc_any(&EventFilter { node: opt(&s[0], num)?, event_min: opt(&s[1], num)? })
+        }
+        "TimedReq" => {
+            let s = obj(v, 2)?;
+            enc_any(&TimedReq { timeout: n16(&s[0])?, interaction_model_revision: opt(&s[1], n8)? })
+        }
+        "Target" => enc_any(&target_of(v)?),
+        "DataVersionFilter" => {
+            let s = obj(v, 2)?;
+            enc_any(&DataVersionFilter { path: cluster_path_of(&s[0])?, data_ver: n32(&s[1])? })
+        }
+        "Status" => enc_any(&status_of(v)?),
+        "StatusResp" => {
+            let s = obj(v, 2)?;
+            enc_any(&StatusResp { status: status_code_of(&s[0])?, interaction_model_revision: opt(&s[1], n8)? })
+        }
+        "SessionParameters" => {
+            let sp = sp_of(v)?;
+            enc_hook(|b| rs_matter::sc::verif_session_params_enc(sp, b))
+        }
+        "PBKDFParamReq" => {
+            let s = obj(v, 5)?;
+            let (a, b, c, d, e) = (bytes(&s[0])?, n16(&s[1])?, n16(&s[2])?, boolean(&s[3])?, opt(&s[4], sp_of)?);
+            enc_hook(|buf| pase::enc_pbkdf_req(a, b, c, d, e, buf))
+        }
+        "PBKDFParamResp" => {
+            let s = obj(v, 5)?;
+            let params = opt(&s[3], |p| {
+                let q = obj(p, 2)?;
+                Ok((n32(&q[0])?, bytes(&q[1])?))
+            })?;
+            let (a, b, c, e) = (bytes(&s[0])?, bytes(&s[1])?, n16(&s[2])?, opt(&s[4], sp_of)?);
+            enc_hook(|buf| pase::enc_pbkdf_resp(a, b, c, params, e, buf))
+        }
+        "Pake1" => {
+            let a = bytes(&obj(v, 1)?[0])?;
+            enc_hook(|buf| pase::enc_pake1(a, buf))
+        }
+        "Pake2" => {
+            let s = obj(v, 2)?;
+            let (a, b) = (bytes(&s[0])?, bytes(&s[1])?);
+            enc_hook(|buf| pase::enc_pake2(a, b, buf))
+        }
+        "Pake3" => {
+            let a = bytes(&obj(v, 1)?[0])?;
+            enc_hook(|buf| pase::enc_pake3(a, buf))
+        }
+        "AclEntry" => {
+            let s = obj(v, 6)?;
+            let auth = match num(&s[1])? {
+                1 => AuthMode::Pase,
+                2 => AuthMode::Case,
+                3 => AuthMode::Group,
+                _ => return bad(),
+            };
+            let fab = opt(&s[5], |x| NonZeroU8::new(n8(x)?).ok_or("BADSLOT".to_string()))?;
+            let mut e = AclEntry::new(fab, privilege_of(num(&s[0])?)?, auth);
+            match &s[2] {
+                V::Null => {}
+                V::Arr(xs) => {
+                    e.verif_set_empty_lists(true, false);
+                    for x in xs {
+                        e.add_subject(num(x)?).or(bad())?;
+                    }
+                }
+                _ => return bad(),
+            }
+            match &s[3] {
+                V::Null => {}
+                V::Arr(xs) => {
+                    e.verif_set_empty_lists(false, true);
+                    for x in xs {
+                        e.add_target(target_of(x)?).or(bad())?;
+                    }
+                }
+                _ => return bad(),
+            }
+            e.verif_set_auxiliary_type(opt(&s[4], |x| {
+                Ok(match num(x)? {
+                    0 => AccessControlAuxiliaryTypeEnum::System,
+                    1 => AccessControlAuxiliaryTypeEnum::Groupcast,
+                    _ => return bad(),
+                })
+            })?);
+            enc_any(&e)
+        }
+        n if DEC_ONLY.contains(&n) || REENC_ONLY.contains(&n) => layout_enc(n, v, None),
+        _ => "BADNAME".into(),
+    })
+}
+
+fn dec_real(name: &str, data: &[u8]) -> String {
+    use rs_matter::sc::case::verif_tlv as case;
+    use rs_matter::sc::pase::verif_tlv as pase;
+    let e = TLVElement::new(data);
+    let ob = |o: Option<&[u8]>| vo(o, vb);
+    match name {
+        "AttrPath" => AttrPath::from_tlv(&e).map(|v| okv(attr_path_v(&v))).unwrap_or_else(err),
+        "CmdPath" => CmdPath::from_tlv(&e).map(|v| okv(cmd_path_v(&v))).unwrap_or_else(err),
+        "AttrStatus" => AttrStatus::from_tlv(&e).map(|v| okv(attr_status_v(&v))).unwrap_or_else(err),
+        "AttrData" => AttrData::from_tlv(&e).map(|v| okr(attr_data_v(&v))).unwrap_or_else(err),
+        "AttrResp" => AttrResp::from_tlv(&e)
+            .map(|v| match &v {
+                AttrResp::Status(x) => okv(V::Variant(0, Box::new(attr_status_v(x)))),
+                AttrResp::Data(x) => okr(attr_data_v(x).map(|d| V::Variant(1, Box::new(d)))),
+            })
+            .unwrap_or_else(err),
+        "CmdStatus" => CmdStatus::from_tlv(&e).map(|v| okv(cmd_status_v(&v))).unwrap_or_else(err),
+        "CmdData" => CmdData::from_tlv(&e).map(|v| okr(cmd_data_v(&v))).unwrap_or_else(err),
+        "CmdResp" => CmdResp::from_tlv(&e)
+            .map(|v| match &v {
+                CmdResp::Cmd(x) => okr(cmd_data_v(x).map(|d| V::Variant(0, Box::new(d)))),
+                CmdResp::Status(x) => okv(V::Variant(1, Box::new(cmd_status_v(x)))),
+            })
+            .unwrap_or_else(err),
+        "EventPath" => EventPath::from_tlv(&e)
+            .map(|v| okv(V::Obj(vec![vo(v.node, vn), vo(v.endpoint, vn), vo(v.cluster, vn), vo(v.event, vn), vo(v.is_urgent, V::Bool)])))
+            .unwrap_or_else(err),
+        "ClusterPath" => ClusterPath::from_tlv(&e).map(|v| okv(cluster_path_v(&v))).unwrap_or_else(err),
+        "EventFilter" => EventFilter::from_tlv(&e).map(|v| okv(V::Obj(vec![vo(v.node, vn), vo(v.event_min, vn)]))).unwrap_or_else(err),
+        "TimedReq" => TimedReq::from_tlv(&e).map(|v| okv(V::Obj(vec![vn(v.timeout), vo(v.interaction_model_revision, vn)]))).unwrap_or_else(err),
+        "Target" => Target::from_tlv(&e).map(|v| okv(target_v(&v))).unwrap_or_else(err),
+        "DataVersionFilter" => DataVersionFilter::from_tlv(&e).map(|v| okv(V::Obj(vec![cluster_path_v(&v.path), vn(v.data_ver)]))).unwrap_or_else(err),
+        "Status" => Status::from_tlv(&e).map(|v| okv(status_v(&v))).unwrap_or_else(err),
+        "StatusResp" => StatusResp::from_tlv(&e).map(|v| okv(V::Obj(vec![vn(v.status as u16), vo(v.interaction_model_revision, vn)]))).unwrap_or_else(err),
+        "SessionParameters" => rs_matter::sc::verif_session_params_dec(data).map(|s| okv(sp_v(s))).unwrap_or_else(err),
+        "PBKDFParamReq" => pase::dec_pbkdf_req(data, |a, b, c, d, s| okv(V::Obj(vec![vb(a), vn(b), vn(c), V::Bool(d), vo(s, sp_v)]))).unwrap_or_else(err),
+        "PBKDFParamResp" => pase::dec_pbkdf_resp(data, |a, b, c, p, s| {
+            okv(V::Obj(vec![vb(a), vb(b), vn(c), vo(p, |(i, salt)| V::Obj(vec![vn(i), vb(salt)])), vo(s, sp_v)]))
+        })
+        .unwrap_or_else(err),
+        "Pake1" => pase::dec_pake1(data, |a| okv(V::Obj(vec![vb(a)]))).unwrap_or_else(err),
+        "Pake2" => pase::dec_pake2(data, |a, b| okv(V::Obj(vec![vb(a), vb(b)]))).unwrap_or_else(err),
+        "Pake3" => pase::dec_pake3(data, |a| okv(V::Obj(vec![vb(a)]))).unwrap_or_else(err),
+        "Sigma1Req" => case::verif_dec_sigma1(data, |a, b, c, d, s, f, g| okv(V::Obj(vec![vb(a), vn(b), vb(c), vb(d), vo(s, sp_v), ob(f), ob(g)]))).unwrap_or_else(err),
+        "Sigma2Resp" => case::verif_dec_sigma2(data, |a, b, c, d| okv(V::Obj(vec![vb(a), vn(b), vb(c), vb(d)]))).unwrap_or_else(err),
+        "TBEData2Decrypt" => case::verif_dec_tbe2(data, |a, b, c, d| okv(V::Obj(vec![vb(a), ob(b), vb(c), vb(d)]))).unwrap_or_else(err),
+        "Sigma3Decrypt" => case::verif_dec_sigma3(data, |a, b, c| okv(V::Obj(vec![vb(a), ob(b), vb(c)]))).unwrap_or_else(err),
+        "Sigma2ResumeMsg" => case::verif_dec_sigma2_resume(data, |a, b, c, s| okv(V::Obj(vec![vb(a), vb(b), vn(c), vo(s, sp_v)]))).unwrap_or_else(err),
+        "AclEntry" => AclEntry::from_tlv(&e)
+            .map(|v| {
+                let subj = v.subjects().into_option().map(|xs| V::Arr(xs.iter().map(|x| vn(*x)).collect())).unwrap_or(V::Null);
+                let targ = v.targets().into_option().map(|xs| V::Arr(xs.iter().map(target_v).collect())).unwrap_or(V::Null);
+                okv(V::Obj(vec![
+                    V::Num(privilege_n(v.verif_privilege())),
+                    V::Num(match v.auth_mode() {
+                        AuthMode::Pase => 1,
+                        AuthMode::Case => 2,
+                        AuthMode::Group => 3,
+                    }),
+                    subj,
+                    targ,
+                    vo(v.auxiliary_type(), |a| vn(a as u8)),
+                    vo(v.fab_idx, |f| vn(f.get())),
+                ]))
+            })
+            .unwrap_or_else(err),
+        _ => "BADNAME".into(),
+    }
 }
 
 pub fn op(name: &str, op: &str) -> String {
@@ -99,66 +768,16 @@ pub fn op(name: &str, op: &str) -> String {
     let verb = it.next().unwrap_or("");
     let s: Vec<&str> = it.collect();
     match verb {
-        "enc" => {
-            if s.len() != schema(name).len() {
-                return "BADSLOTS".into();
-            }
-            let r: Result<String, String> = (|| {
-                Ok(match name {
-                    "AttrPath" => enc_any(&AttrPath {
-                        tag_compression: ob(s[0])?,
-                        node: o64(s[1])?,
-                        endpoint: o16(s[2])?,
-                        cluster: o32(s[3])?,
-                        attr: o32(s[4])?,
-                        list_index: match s[5] {
-                            "-" => None,
-                            "n" => Some(Nullable::none()),
-                            x => Some(Nullable::some(r64(x)? as u16)),
-                        },
-                    }),
-                    "CmdPath" => enc_any(&CmdPath { endpoint: o16(s[0])?, cluster: o32(s[1])?, cmd: o32(s[2])? }),
-                    "EventPath" => enc_any(&EventPath { node: o64(s[0])?, endpoint: o16(s[1])?, cluster: o32(s[2])?, event: o32(s[3])?, is_urgent: ob(s[4])? }),
-                    "ClusterPath" => enc_any(&ClusterPath { node: o64(s[0])?, endpoint: r64(s[1])? as u16, cluster: r64(s[2])? as u32 }),
-                    "EventFilter" => enc_any(&EventFilter { node: o64(s[0])?, event_min: o64(s[1])? }),
-                    "TimedReq" => enc_any(&TimedReq { timeout: r64(s[0])? as u16, interaction_model_revision: o8(s[1])? }),
-                    "Target" => enc_any(&Target { cluster: o32(s[0])?, endpoint: o16(s[1])?, device_type: o32(s[2])? }),
-                    "DataVersionFilter" => enc_any(&DataVersionFilter {
-                        path: ClusterPath { node: o64(s[0])?, endpoint: r64(s[1])? as u16, cluster: r64(s[2])? as u32 },
-                        data_ver: r64(s[3])? as u32,
-                    }),
-                    _ => "BADNAME".into(),
-                })
-            })();
-            r.unwrap_or_else(|e| e)
-        }
-        "dec" => {
-            let bytes = unhex(s.first().copied().unwrap_or("-"));
-            let e = TLVElement::new(&bytes);
+        "enc" => match parse(&s) {
+            Ok(v) => enc_real(name, &v).unwrap_or_else(|e| e),
+            Err(e) => e,
+        },
+        "dec" => dec_real(name, &unhex(s.first().copied().unwrap_or("-"))),
+        "reenc" => {
+            let data = unhex(s.first().copied().unwrap_or("-"));
             match name {
-                "AttrPath" => AttrPath::from_tlv(&e)
-                    .map(|v| {
-                        let li = match &v.list_index {
-                            None => "-".to_string(),
-                            Some(n) => match n.as_opt_ref() {
-                                None => "n".to_string(),
-                                Some(x) => x.to_string(),
-                            },
-                        };
-                        format!("ok:{} {} {} {} {} {}", pb(&v.tag_compression), p(&v.node), p(&v.endpoint), p(&v.cluster), p(&v.attr), li)
-                    })
-                    .unwrap_or_else(err),
-                "CmdPath" => CmdPath::from_tlv(&e).map(|v| format!("ok:{} {} {}", p(&v.endpoint), p(&v.cluster), p(&v.cmd))).unwrap_or_else(err),
-                "EventPath" => EventPath::from_tlv(&e)
-                    .map(|v| format!("ok:{} {} {} {} {}", p(&v.node), p(&v.endpoint), p(&v.cluster), p(&v.event), pb(&v.is_urgent)))
-                    .unwrap_or_else(err),
-                "ClusterPath" => ClusterPath::from_tlv(&e).map(|v| format!("ok:{} {} {}", p(&v.node), v.endpoint, v.cluster)).unwrap_or_else(err),
-                "EventFilter" => EventFilter::from_tlv(&e).map(|v| format!("ok:{} {}", p(&v.node), p(&v.event_min))).unwrap_or_else(err),
-                "TimedReq" => TimedReq::from_tlv(&e).map(|v| format!("ok:{} {}", v.timeout, p(&v.interaction_model_revision))).unwrap_or_else(err),
-                "Target" => Target::from_tlv(&e).map(|v| format!("ok:{} {} {}", p(&v.cluster), p(&v.endpoint), p(&v.device_type))).unwrap_or_else(err),
-                "DataVersionFilter" => DataVersionFilter::from_tlv(&e)
-                    .map(|v| format!("ok:{} {} {} {}", p(&v.path.node), v.path.endpoint, v.path.cluster, v.data_ver))
-                    .unwrap_or_else(err),
+                "Fabric" => rs_matter::fabric::Fabric::from_tlv(&TLVElement::new(&data)).map(|f| enc_any(&f)).unwrap_or_else(err),
+                "AclEntry" => AclEntry::from_tlv(&TLVElement::new(&data)).map(|f| enc_any(&f)).unwrap_or_else(err),
                 _ => "BADNAME".into(),
             }
         }
@@ -166,60 +785,207 @@ pub fn op(name: &str, op: &str) -> String {
     }
 }
 
-fn gen_slot(r: &mut Rng, ty: Ty, opt: bool, nullable: bool) -> String {
-    if opt && r.chance(1, 3) {
-        return "-".into();
-    }
-    if nullable && r.chance(1, 3) {
-        return "n".into();
-    }
-    let max: u64 = match ty {
-        Ty::U8 => u8::MAX as u64,
-        Ty::U16 => u16::MAX as u64,
-        Ty::U32 => u32::MAX as u64,
-        Ty::U64 => u64::MAX,
-        Ty::Bool => return if r.chance(1, 2) { "T".into() } else { "F".into() },
-    };
+// ---------------------------------------------------------------------------------- generator
+
+fn gen_num(r: &mut Rng, bytes: usize, dom: &Dom, nullable: bool) -> u64 {
+    let max: u64 = if bytes >= 8 { u64::MAX } else { (1u64 << (8 * bytes)) - 1 };
     // a nullable integer excludes the top value of its type
     let max = if nullable { max - 1 } else { max };
-    let v = match r.below(8) {
-        0 => 0,
-        1 => max,
-        2 => 255.min(max),
-        3 => 256.min(max),
-        4 => 65535.min(max),
-        5 => 65536.min(max),
-        6 => 4294967296u64.min(max),
-        _ => {
-            if max == u64::MAX {
-                r.next()
+    match dom {
+        Dom::OneOf(vs) => *r.pick(vs),
+        Dom::NonZero => 1 + r.below(max),
+        Dom::Any => match r.below(8) {
+            0 => 0,
+            1 => max,
+            2 => 255.min(max),
+            3 => 256.min(max),
+            4 => 65535.min(max),
+            5 => 65536.min(max),
+            6 => 4294967296u64.min(max),
+            _ => {
+                if max == u64::MAX {
+                    r.next()
+                } else {
+                    r.below(max + 1)
+                }
+            }
+        },
+    }
+}
+
+fn gen_val(r: &mut Rng, ty: &T, nullable: bool) -> V {
+    match ty {
+        T::U(n, d) => V::Num(gen_num(r, *n, d, nullable)),
+        T::Bool => V::Bool(r.chance(1, 2)),
+        T::Oct(lo, cap) => {
+            // lengths around the 1-byte / 2-byte length-field boundary, typical key / MIC sizes
+            let n = match r.below(10) {
+                0 => 0,
+                1 => 1,
+                2 => 16,
+                3 => 32,
+                4 => 65,
+                5 => 255,
+                6 => 256,
+                7 => 257 + r.below(300),
+                _ => r.below(70),
+            } as usize;
+            let n = n.max(*lo).min(cap.unwrap_or(usize::MAX));
+            V::Bytes(r.bytes(n))
+        }
+        T::Utf8(cap) => {
+            let mut b = Vec::new();
+            let want = if r.chance(1, 4) { *cap } else { r.below(*cap as u64 + 1) as usize };
+            while b.len() < want {
+                let c: &[u8] = *r.pick(&[&b"a"[..], &b"Z"[..], &b" "[..], &[0xc3, 0xa9][..], &[0xe2, 0x82, 0xac][..], &[0xf0, 0x9f, 0x98, 0x80][..]]);
+                if b.len() + c.len() > want {
+                    break;
+                }
+                b.extend_from_slice(c);
+            }
+            V::Bytes(b)
+        }
+        T::St(fs) | T::Ls(fs) => V::Obj(
+            fs.iter()
+                .map(|f| {
+                    if f.opt && r.chance(1, 3) {
+                        V::Absent
+                    } else if f.nullable && r.chance(1, 3) {
+                        V::Null
+                    } else {
+                        gen_val(r, &f.ty, f.nullable)
+                    }
+                })
+                .collect(),
+        ),
+        T::Any => {
+            // a small random element (all value kinds, nesting up to 2) under the anonymous tag
+            let mut budget = 6usize;
+            let mut node = super::gen_node(r, 2, false, false, true, &mut budget);
+            match &mut node {
+                super::Node::Leaf(t, _) | super::Node::Cont(t, _, _) => *t = TLVTag::Anonymous,
+            }
+            V::Raw(super::write_tree(&node, &mut Vec::new()).unwrap_or_else(|_| vec![0x14]))
+        }
+        T::Choice(alts) => {
+            let i = r.below(alts.len() as u64) as usize;
+            V::Variant(i, Box::new(gen_val(r, &alts[i].1, false)))
+        }
+        T::Arr(cap, el) => {
+            let max = cap.unwrap_or(6) as u64;
+            let n = if max > 40 {
+                // certificate-sized byte vectors: mostly short, sometimes full
+                if r.chance(1, 12) { max } else { r.below(24) }
+            } else if r.chance(1, 4) {
+                max
             } else {
                 r.below(max + 1)
-            }
+            };
+            V::Arr((0..n).map(|_| gen_val(r, el, false)).collect())
         }
-    };
-    v.to_string()
+    }
+}
+
+/// grow the first capacity-bounded array / string found (depth first, random skip) past its
+/// capacity, or change the length of an exact-length octet string
+fn overflow_one(r: &mut Rng, ty: &T, v: &mut V) -> bool {
+    match (ty, v) {
+        (T::Arr(Some(cap), el), V::Arr(xs)) => {
+            if r.chance(1, 2) && *cap < 40 {
+                while xs.len() <= *cap {
+                    xs.push(gen_val(r, el, false));
+                }
+                return true;
+            }
+            for x in xs.iter_mut() {
+                if overflow_one(r, el, x) {
+                    return true;
+                }
+            }
+            false
+        }
+        (T::Oct(lo, Some(cap)), V::Bytes(b)) => {
+            if *lo > 0 && r.chance(1, 2) {
+                b.truncate(lo - 1);
+            } else {
+                b.resize(cap + 1, 0x41);
+            }
+            true
+        }
+        (T::Utf8(cap), V::Bytes(b)) => {
+            b.resize(cap + 1, 0x41);
+            true
+        }
+        (T::Choice(alts), V::Variant(i, x)) => match alts.get(*i) {
+            Some((_, ty)) => overflow_one(r, ty, x),
+            None => false,
+        },
+        (T::St(fs), V::Obj(xs)) | (T::Ls(fs), V::Obj(xs)) => {
+            let start = r.below(fs.len().max(1) as u64) as usize;
+            for k in 0..fs.len() {
+                let i = (start + k) % fs.len();
+                if overflow_one(r, &fs[i].ty, &mut xs[i]) {
+                    return true;
+                }
+            }
+            false
+        }
+        _ => false,
+    }
 }
 
 pub fn gen(r: &mut Rng) -> (String, Vec<String>) {
     let name = *r.pick(NAMES);
-    let slots: Vec<String> = schema(name).iter().map(|(t, o, n)| gen_slot(r, *t, *o, *n)).collect();
-    let enc_op = format!("enc {}", slots.join(" "));
+    let ty = schema(name).expect("schema");
+    let v = gen_val(r, &ty, false);
+    let enc_op = format!("enc {}", show(&v));
     let mut ops = vec![enc_op.clone()];
     let o = op(name, &enc_op);
+    let dec = if REENC_ONLY.contains(&name) { "reenc" } else { "dec" };
     if let Some(h) = o.strip_prefix("ok:") {
-        ops.push(format!("dec {}", h));
+        ops.push(format!("{} {}", dec, h));
         // a truncated / mutated encoding must be rejected or decoded, never panic
         let mut b = unhex(h);
         if !b.is_empty() {
-            if r.chance(1, 2) {
-                let n = r.below(b.len() as u64) as usize;
-                b.truncate(n);
-            } else {
-                let i = r.below(b.len() as u64) as usize;
-                b[i] = r.next() as u8;
+            match r.below(5) {
+                0 => {
+                    let n = r.below(b.len() as u64) as usize;
+                    b.truncate(n);
+                }
+                4 => {
+                    // one array / string pushed beyond its capacity, or an exact-length key shortened
+                    // (written by the layout writer: the derived decoder must refuse it)
+                    let mut w = v.clone();
+                    if overflow_one(r, &ty, &mut w) {
+                        if let Some(h2) = layout_enc(name, &w, None).strip_prefix("ok:") {
+                            b = unhex(h2);
+                        }
+                    }
+                }
+                1 => {
+                    let i = r.below(b.len() as u64) as usize;
+                    b[i] = r.next() as u8;
+                }
+                2 => {
+                    // a control / tag byte near the front (field headers) replaced
+                    let i = r.below(b.len().min(12) as u64) as usize;
+                    b[i] = *r.pick(&[0x15u8, 0x16, 0x17, 0x18, 0x14, 0x24, 0x25, 0x30, 0x34, 0x35, 0x36, 0x04, 0x00]);
+                }
+                _ => {
+                    // the same value with the fields of the outermost structure in another order
+                    if let V::Obj(xs) = &v {
+                        let mut p: Vec<usize> = (0..xs.len()).collect();
+                        for i in (1..p.len()).rev() {
+                            let j = r.below(i as u64 + 1) as usize;
+                            p.swap(i, j);
+                        }
+                        if let Some(h2) = layout_enc(name, &v, Some(&p)).strip_prefix("ok:") {
+                            b = unhex(h2);
+                        }
+                    }
+                }
             }
-            ops.push(format!("dec {}", hex(&b)));
+            ops.push(format!("{} {}", dec, hex(&b)));
         }
     }
     (name.to_string(), ops)
